@@ -474,3 +474,33 @@ prop(
          "data to the sink during a write call and the sink answered at least one call with a partial accept or Interrupted.",
     assumptions=["ASCII strings and chars", "the sink never returns Ok(0) for a non-empty buffer and reports no error other than Interrupted"],
 )
+
+prop(
+    "C04",
+    level="exploration",
+    technique="differential runtime monitor with a history twin: FFT results compared coefficient by coefficient with exact "
+              "integer convolution (schoolbook / two-prime NTT + CRT), long-lived object versus fresh object per call, "
+              "pre-filled destinations for the *_into variants",
+    level_text="Exploration: all 40x40 length pairs, lengths 2^k-1 / 2^k / 2^k+1 and sums straddling the transform-size "
+               "switch (k<=14 quick, <=20 thorough), ten value patterns (+-M constant, alternating, random, near-maximum, "
+               "sparse spikes, one-hot, zeros) at the envelope's maximum, half and small magnitudes, every admissible corner "
+               "cell of the crate's published table, both argument orders, f64 and f32; history twins (one object fed 5-30 "
+               "calls of growing, shrinking, growing sizes incl. fft / fft_inv / *_into / clone / update_n versus a fresh "
+               "object per call); *_into additivity into pre-filled longer / exact / shorter destinations; fft -> pointwise "
+               "product -> fft_inv equals multiply; empty and single-element operands.",
+    level_note="Trusted: the engine's schoolbook convolution and its NTT+CRT (self-checked against schoolbook at start-up; failure "
+               "is inconclusive). The explored envelope is the INTERSECTION of the quantifier formula "
+               "max(|a|,|b|)^2*min(la,lb) <= 1e12 (1e3 for f32) and the crate's own table (rlib_fft::precision, read at run "
+               "time): strongly unbalanced lengths satisfy the formula alone but lie outside what the crate publishes, and "
+               "are never judged. Sampling only - exactness for all vectors in the envelope is a numerical-analysis claim.",
+    runs=[
+        dict(engine="fftmon", profile="release", args=[], group="all", timeout=dict(quick=900, thorough=7200)),
+        dict(engine="fftmon", profile="dev", args=["--light"], group="all", label="fftmon/dev/light (debug assertions on)"),
+    ],
+    floor=dict(quick=200_000, thorough=900_000),
+    counter_floors=dict(quick=dict(coefficients_compared=100_000_000, history_twin_sequences=2_000, into_calls=30_000, roundtrip_calls=5_000,
+                                   transform_sizes=14, margin_at_max=100_000)),
+    rule="one evaluation = one library result (multiply / multiply_into / fft-product-fft_inv / fft_into / fft_inv_into) compared "
+         "with the exact oracle; distinct_nontrivial = distinct inputs with both lengths >= 2 and magnitude >= 2.",
+    assumptions=["inputs lie inside the intersection envelope described in level_note"],
+)
